@@ -506,6 +506,11 @@ func (r *runner) doStep(st Step) {
 	case "sendfail":
 		r.rec.Log("SendFailArmed")
 		r.ch.FailSends()
+	case "sendheal": // the failure was transient
+		r.ch.HealSends()
+		r.rec.Log("SendHealed")
+	case "closefail": // Close will close the channel and complain: how the connection ended is what ended it, not this
+		r.ch.FailClose(errors.New("transport: error while closing"))
 	case "stop":
 		r.rec.Log("StopB")
 		r.srv.Stop()
